@@ -1,7 +1,7 @@
 #!/bin/sh
 # usage: seedarchive.sh <ID> <name> "<detected-by checks>" "<note>"   -- copies a confirmed seeded change from /tmp/seed/<ID> to /verif/seeded/<name>
 ID=$1; NAME=$2; DET=$3; NOTE=$4
-SRC=/tmp/seed/$ID; DST=/verif/seeded/$NAME
+SRC=${SEEDROOT:-/tmp/seed}/$ID; DST=/verif/seeded/$NAME
 mkdir -p $DST/demo
 cp $SRC/patch.diff $DST/patch.diff
 ( cd $SRC/demo && find . -maxdepth 2 -type f ! -name gjs ! -path './work/*' ! -name '*.exe' -size -200k | while read f; do mkdir -p "$DST/demo/$(dirname $f)"; cp "$f" "$DST/demo/$f"; done )
@@ -14,7 +14,7 @@ m["property"]=pid
 m["confirmed"]={"suite_with_change":"204 pass / 0 fail (scripts/suite_summary.sh with VERIF_REPO=<worktree with patch>)",
  "demo":"demo/run.sh exits 1 with the change and 0 without it (re-run by scripts/seedcheck.sh)",
  "detected_by":det.split(), "note":note,
- "how_run":"scripts/seedcheck.sh /tmp/seed/%s \"%s\"  (fresh worktree of /repo HEAD + git apply patch.diff; VERIF_REPO=<worktree> bin/verif check <id>)"%(pid,det)}
+ "how_run":"scripts/seedcheck.sh <seed root>/%s \"%s\"  (fresh worktree of /repo HEAD + git apply patch.diff; VERIF_REPO=<worktree> bin/verif check <id>)"%(pid,det)}
 json.dump(m,open(dst,"w"),indent=1)
 PY
 echo archived $DST
